@@ -96,6 +96,7 @@ PROPS = {
         "assumptions": BASE_ASSUME + ["every Move is preceded by a write into the current slot, as in both callers"],
         "parts": [
             {"engine": "mp", "test": "TestVF_C19", "quick": (4, 20000), "thorough": (16, 200000)},
+            {"engine": "mp", "test": "TestVF_C19_Concurrent", "kind": "plain"},
             {"engine": "mp", "test": "TestVF_C19_Exhaustive", "kind": "plain", "tiers": ["thorough"]},
             {"engine": "mp", "test": "FuzzVF_C19", "kind": "fuzz", "tiers": ["thorough"], "thorough_secs": 60},
         ],
